@@ -12,7 +12,7 @@ import typing as t
 
 from ..effects import MUTATORS
 from ..facts import AnalysisError
-from ..terms import contains, show, subterms
+from ..terms import contains, show, strip_sites, subterms
 from ..util import NoInline, engine, implied_atoms, loc
 
 
@@ -129,3 +129,131 @@ def cache_coherence(run, prog, rule: str, classes: t.Sequence[str]):
                 run.ob(rule, f"{getter.qual}:cache-{A}-reset-by-every-change", True, loc(getter),
                        f"{getter.name}() answers from self.{A} (derived from {sorted(sources)}); every path that changes a source resets it")
     run.note(f"{rule}: derived-state caches searched in {list(classes)} ({looked} methods)")
+
+
+# ------------------------------------------------------------------------------------------------------------------
+def _termination_context(fn_node, node) -> bool:
+    """is `node` lexically inside an except clause that can see a cancellation, or inside a finally block, of fn_node?"""
+    import ast
+    def search(body, inside):
+        for st in body:
+            if st is node or any(x is node for x in ast.walk(st)):
+                if isinstance(st, ast.Try):
+                    for h in st.handlers:
+                        if any(x is node for b in h.body for x in ast.walk(b)):
+                            t_ = ast.unparse(h.type) if h.type is not None else "BaseException"
+                            if any(k in t_ for k in ("CancelledError", "BaseException")) or h.type is None:
+                                return True
+                            return search(h.body, inside)
+                    if any(x is node for b in st.finalbody for x in ast.walk(b)):
+                        return True
+                    for blk in (st.body, st.orelse):
+                        if any(x is node for b in blk for x in ast.walk(b)):
+                            return search(blk, inside)
+                for field in ("body", "orelse"):
+                    blk = getattr(st, field, None)
+                    if isinstance(blk, list) and any(x is node for b in blk if isinstance(b, ast.AST) for x in ast.walk(b)):
+                        return search(blk, inside)
+                return inside
+        return inside
+    return search(fn_node.body, False)
+
+
+def lifecycle_owner(run, prog, scan, rule: str, cq: str, start: str = "start", stop: str = "stop"):
+    """Generation discipline of a start()/stop() object.
+
+    The attributes that both start() and stop() assign (the running flag, the task handle) describe the *current*
+    generation of the object.  Code that runs when a generation ends - the except CancelledError / finally part of the
+    task start() created, a done-callback, a timer callback - can run after stop() and a new start().  If it assigns
+    one of these attributes a value other than the one stop() *and* start() leave there, it overwrites the state of a
+    generation it does not belong to (the new run is marked stopped, the new task handle is lost; the next stop()
+    returns early and cancels / withdraws nothing).  Allowed: re-asserting the value both start() and stop() assign, or
+    assigning on a path that compared the handle the continuation was started for with the current one."""
+    me = ("self", cq)
+    ci = prog.cls(cq)
+    sfi, pfi = prog.lookup_method(cq, start), prog.lookup_method(cq, stop)
+    if sfi is None or pfi is None:
+        raise AnalysisError(f"{cq}: {start}() / {stop}() vanished")
+
+    ceng = engine(prog, NoInline())
+    ceng.policy.cancel_at_await = True  # a task can be cancelled at every await
+    cpaths = {}
+
+    def stores_of(q):
+        out = {}
+        f_ = prog.functions.get(q)
+        if f_ is not None and f_.is_async:
+            if q not in cpaths:
+                cpaths[q] = ceng.paths(f_, recv=cq)
+                run.paths += len(cpaths[q])
+            ps = cpaths[q]
+        else:
+            ps = scan.paths.get((q, cq), [])
+        for p in ps:
+            for e in p.events:
+                if e.kind == "store" and e.target is not None and e.target[0] == "attr" and e.target[1] == me:
+                    out.setdefault(e.target[2], []).append((p, e))
+        return out
+    s_st, p_st = stores_of(sfi.qual), stores_of(pfi.qual)
+    owned = sorted(set(s_st) & set(p_st))
+    run.floor(f"{rule}-generation-attributes[{cq}]", len(owned), 1)
+
+    def last_values(sts):
+        return {strip_sites(e.value) for _, e in sts if isinstance(e.value, tuple)}
+    # continuations: coroutines of the class and methods handed over as callbacks
+    deferred = {}
+    for name, fi in sorted(ci.methods.items()):
+        if fi.is_async and name not in (start, stop):
+            deferred[fi.qual] = (fi, "coroutine")
+    for (q, r), ps in scan.paths.items():
+        for p in ps:
+            for e in p.events:
+                if e.kind != "call":
+                    continue
+                cands = []
+                if e.sched and e.cb is not None:
+                    cands.append(e.cb)
+                if e.attrname in ("add_done_callback", "call_soon", "call_later", "call_at", "call_soon_threadsafe"):
+                    cands += [a for a in (e.args or ()) if isinstance(a, tuple)]
+                for cb in cands:
+                    if cb[0] == "bound" and isinstance(cb[-1], str):
+                        f = prog.functions.get(cb[-1])
+                        if f is not None and f.cls is not None and prog.is_subclass(cq, f.cls.qual) and f.name not in (start, stop, "__init__") \
+                                and f.qual not in deferred and not f.is_async:
+                            deferred[f.qual] = (f, "callback")
+    bad = []
+    n = 0
+    for q, (fi, how) in sorted(deferred.items()):
+        for A, sts in sorted(stores_of(q).items()):
+            if A not in owned:
+                continue
+            for p, e in sts:
+                host = e.func if e.func is not None else fi
+                if how == "coroutine" and not _termination_context(host.node, e.node):
+                    continue  # runs only while the task is live
+                n += 1
+                both = last_values(s_st[A]) | last_values(p_st[A])
+                if len(both) == 1 and isinstance(e.value, tuple) and strip_sites(e.value) in both:
+                    continue  # re-asserts what start() and stop() both leave there
+                guarded = any(c[0] == "cmp" and c[1] in ("is", "is not", "==", "!=") and
+                              any(x[0] == "attr" and x[1] == me and x[2] in owned for x in (c[2], c[3])) and
+                              not any(x == ("const", None) for x in (c[2], c[3])) for c, _v, _, _ in p.conds)
+                if not guarded:
+                    bad.append((fi, how, A, e))
+    seen = set()
+    for fi, how, A, e in bad:
+        key = (fi.qual, A)
+        if key in seen:
+            continue
+        seen.add(key)
+        where = "when its task is cancelled / ends" if how == "coroutine" else "when it is called back"
+        run.ob(rule, f"{fi.qual}:assigns-generation-state[{A}]", False, loc(fi, e.node),
+               f"{fi.name} (a {how} of {cq.split('.')[-1]}) assigns self.{A} = {show(e.value)[:40] if isinstance(e.value, tuple) else '?'} {where}; "
+               f"{start}() and {stop}() own that attribute: after a {stop}() / {start}() pair the assignment lands in the new generation "
+               f"(the next {stop}() then sees a stopped object / no task and cancels or withdraws nothing)")
+    if not bad:
+        run.ob(rule, f"{cq}:generation-state-owned-by-{start}-{stop}", True, loc(sfi),
+               f"{owned} are owned by {start}()/{stop}(); {len(deferred)} continuation(s) of the class "
+               f"({', '.join(sorted(f.name for f, _ in deferred.values())) or '-'}) assign them at most the value both leave there "
+               f"({n} assignment(s) in termination context looked at)")
+    return owned
